@@ -14,6 +14,11 @@
 //! op:  `fmbig <shape> <n> <wkind> <idkind> <mi> <mb> <mp> <mm> <threads> <reuse> <seed>`: large generated
 //!      case (rebuilt from these tokens), oracle only (the list-based model is quadratic per move and the
 //!      output depends on the hash order: the driver answers `skip large-n (oracle only)`).
+//! op:  `fmv <variant> fm …`: the `fm` case run through another legal input type / calling context / special
+//!      value encoding (`w=<weight type>/t=<topology type>/c=<context>/nz=<mask of zero weights given as -0.0>/
+//!      sc=<e: f64 weights k*2^e>`); the model predicts the plain case, so the line is compared like an `fm` line.
+//! op:  `fmconc <pool> <calls> <nested> <seed>`: that many FM calls at once on one pool (each also its own `fmv` line);
+//!      `fmproc <kind> <seed>`: a fixed first-call sequence in a child process. Driver: `skip …`.
 //! out: `ok <cap> | <ids> | <moves_per_pass> | <rewinded_moves_per_pass>` (`-` = empty list)
 //!      | `ok-empty` | `lenmismatch` | `bionly` | `panic …`
 
@@ -389,6 +394,18 @@ pub fn run_op(ctx: &mut Ctx, op: &str) {
         run_reuse(ctx, op);
         return;
     }
+    if op.starts_with("fmv ") {
+        run_variant_replay(ctx, op);
+        return;
+    }
+    if op.starts_with("fmconc ") {
+        run_concurrent(ctx, op);
+        return;
+    }
+    if op.starts_with("fmproc ") {
+        run_process_sequence(ctx, op);
+        return;
+    }
     let Some(c) = parse_op(op) else {
         ctx.record(op.to_string(), "bad-op".into(), false);
         return;
@@ -701,7 +718,7 @@ fn parse_big(op: &str) -> Option<Big> {
 fn build_big(b: &Big, n: usize, salt: u64) -> Option<Case> {
     let mut rng = Rng::new(b.seed ^ salt.wrapping_mul(0x9E37_79B9_7F4A_7C15));
     let mut rows: Vec<Vec<(usize, i64)>> = vec![Vec::with_capacity(4); n];
-    let mut add = |rows: &mut Vec<Vec<(usize, i64)>>, u: usize, v: usize, w: i64| {
+    let add = |rows: &mut Vec<Vec<(usize, i64)>>, u: usize, v: usize, w: i64| {
         if u != v && u < n && v < n && !rows[u].iter().any(|(x, _)| *x == v) {
             rows[u].push((v, w));
             rows[v].push((u, w));
@@ -1044,6 +1061,839 @@ fn gen_corners(ctx: &mut Ctx) {
         c1.mp = c2.mp;
         c1.mm = c2.mm;
         run_op(ctx, &format!("fmr {} ;; {}", format_op(&c1), format_op(&c2)));
+    }
+}
+
+// ------------------------------------------------------------------ special values / plumbing / context
+
+#[derive(Clone, Copy, Debug, PartialEq)]
+enum WTy {
+    I64,
+    F64,
+    I32,
+    U32,
+    U64,
+    Usize,
+    F32,
+    I128,
+    U8,
+    I16,
+}
+
+#[derive(Clone, Copy, Debug, PartialEq)]
+enum Topo {
+    View,
+    RefView,
+    RefRefView,
+    Grid(usize, usize),
+    RefGrid(usize, usize),
+    /// through `coupe_tools::parse_algorithm("fm,…")` on a quad mesh of a x b elements
+    Tools(usize, usize),
+}
+
+#[derive(Clone, Copy, Debug, PartialEq)]
+enum CallCtx {
+    Global,
+    Pool(usize),
+    Join(usize),
+    Spawn(usize),
+}
+
+#[derive(Clone, Copy, Debug)]
+struct Variant {
+    w: WTy,
+    t: Topo,
+    c: CallCtx,
+    /// bit i%64 set: a zero weight of vertex i is given as -0.0 (f64 / f32 only)
+    nz: u64,
+    /// f64 weights are k * 2^e
+    sc: Option<i32>,
+}
+
+impl Variant {
+    fn plain(f64w: bool) -> Self {
+        Variant { w: if f64w { WTy::F64 } else { WTy::I64 }, t: Topo::View, c: CallCtx::Global, nz: 0, sc: None }
+    }
+    fn is_float(&self) -> bool {
+        matches!(self.w, WTy::F64 | WTy::F32)
+    }
+    fn token(&self) -> String {
+        let w = format!("{:?}", self.w).to_lowercase();
+        let t = match self.t {
+            Topo::View => "view".to_string(),
+            Topo::RefView => "refview".to_string(),
+            Topo::RefRefView => "refrefview".to_string(),
+            Topo::Grid(a, b) => format!("grid:{}x{}", a, b),
+            Topo::RefGrid(a, b) => format!("refgrid:{}x{}", a, b),
+            Topo::Tools(a, b) => format!("tools:{}x{}", a, b),
+        };
+        let c = match self.c {
+            CallCtx::Global => "global".to_string(),
+            CallCtx::Pool(t) => format!("pool{}", t),
+            CallCtx::Join(t) => format!("join{}", t),
+            CallCtx::Spawn(t) => format!("spawn{}", t),
+        };
+        format!("w={}/t={}/c={}/nz={}/sc={}", w, t, c, self.nz, self.sc.map_or("none".to_string(), |e| e.to_string()))
+    }
+    fn parse(tok: &str) -> Option<Variant> {
+        let mut v = Variant::plain(false);
+        for part in tok.split('/') {
+            let (k, x) = part.split_once('=')?;
+            match k {
+                "w" => {
+                    v.w = match x {
+                        "i64" => WTy::I64,
+                        "f64" => WTy::F64,
+                        "i32" => WTy::I32,
+                        "u32" => WTy::U32,
+                        "u64" => WTy::U64,
+                        "usize" => WTy::Usize,
+                        "f32" => WTy::F32,
+                        "i128" => WTy::I128,
+                        "u8" => WTy::U8,
+                        "i16" => WTy::I16,
+                        _ => return None,
+                    }
+                }
+                "t" => {
+                    let dims = |d: &str| -> Option<(usize, usize)> {
+                        let (a, b) = d.split_once('x')?;
+                        let (a, b) = (a.parse().ok()?, b.parse().ok()?);
+                        if a == 0 || b == 0 || a * b > 100_000 {
+                            return None;
+                        }
+                        Some((a, b))
+                    };
+                    v.t = match x {
+                        "view" => Topo::View,
+                        "refview" => Topo::RefView,
+                        "refrefview" => Topo::RefRefView,
+                        _ => {
+                            let (kind, d) = x.split_once(':')?;
+                            let (a, b) = dims(d)?;
+                            match kind {
+                                "grid" => Topo::Grid(a, b),
+                                "refgrid" => Topo::RefGrid(a, b),
+                                "tools" => Topo::Tools(a, b),
+                                _ => return None,
+                            }
+                        }
+                    }
+                }
+                "c" => {
+                    v.c = if x == "global" {
+                        CallCtx::Global
+                    } else if let Some(t) = x.strip_prefix("pool") {
+                        CallCtx::Pool(t.parse().ok().filter(|t| (1..=64).contains(t))?)
+                    } else if let Some(t) = x.strip_prefix("join") {
+                        CallCtx::Join(t.parse().ok().filter(|t| (1..=64).contains(t))?)
+                    } else if let Some(t) = x.strip_prefix("spawn") {
+                        CallCtx::Spawn(t.parse().ok().filter(|t| (1..=64).contains(t))?)
+                    } else {
+                        return None;
+                    }
+                }
+                "nz" => v.nz = x.parse().ok()?,
+                "sc" => v.sc = if x == "none" { None } else { Some(x.parse().ok().filter(|e| (-1074..=1023).contains(e))?) },
+                _ => return None,
+            }
+        }
+        Some(v)
+    }
+    /// cause signature of a dependence on this variant
+    fn sig(&self) -> &'static str {
+        if self.nz != 0 {
+            "negzero-dependent@fm"
+        } else if self.sc.is_some() {
+            "scale-dependent@fm"
+        } else if self.c != CallCtx::Global {
+            "context-dependent@fm"
+        } else {
+            "input-type-dependent@fm"
+        }
+    }
+}
+
+/// 2^e as an f64, exact for -1074 <= e <= 1023 (no `powi`: its intermediate results over/underflow).
+fn pow2(e: i32) -> f64 {
+    if e >= -1022 {
+        f64::from_bits(((e + 1023) as u64) << 52)
+    } else {
+        f64::from_bits(1u64 << (e + 1074))
+    }
+}
+
+fn grid_rows(a: usize, b: usize) -> Vec<Vec<(usize, i64)>> {
+    use coupe::Topology;
+    let g = coupe::Grid::new_2d(std::num::NonZeroUsize::new(a).unwrap(), std::num::NonZeroUsize::new(b).unwrap());
+    let n = a * b;
+    (0..n)
+        .map(|v| {
+            let mut r: Vec<(usize, i64)> = Topology::<i64>::neighbors(&g, v).collect();
+            r.sort();
+            r
+        })
+        .collect()
+}
+
+fn quad_mesh(a: usize, b: usize) -> mesh_io::Mesh {
+    let mut coords = vec![];
+    for i in 0..=a {
+        for j in 0..=b {
+            coords.push(j as f64);
+            coords.push(i as f64);
+        }
+    }
+    let mut nodes = vec![];
+    for i in 0..a {
+        for j in 0..b {
+            let n00 = i * (b + 1) + j;
+            nodes.extend_from_slice(&[n00, n00 + 1, n00 + b + 2, n00 + b + 1]);
+        }
+    }
+    let nn = (a + 1) * (b + 1);
+    mesh_io::Mesh::from_raw_parts(2, coords, vec![0; nn], vec![(mesh_io::ElementType::Quadrangle, nodes, vec![0; a * b])])
+}
+
+fn tools_rows(a: usize, b: usize) -> Vec<Vec<(usize, i64)>> {
+    let m = coupe_tools::dual(&quad_mesh(a, b));
+    let n = m.rows();
+    (0..n)
+        .map(|v| {
+            let row = m.outer_view(v).unwrap();
+            row.iter().map(|(u, w)| (u, *w as i64)).collect()
+        })
+        .collect()
+}
+
+type CallOut = Result<(Vec<usize>, Vec<usize>), String>;
+
+fn call_w<W: coupe::FmWeight>(fm: &mut coupe::FiducciaMattheyses, c: &Case, t: Topo, w: &[W], ids: &mut [usize]) -> CallOut {
+    let n = c.rows.len();
+    let mut indptr = Vec::with_capacity(n + 1);
+    indptr.push(0usize);
+    let mut indices = vec![];
+    let mut data = vec![];
+    for r in &c.rows {
+        for (u, x) in r {
+            indices.push(*u);
+            data.push(*x);
+        }
+        indptr.push(indices.len());
+    }
+    let mat: CsMat<i64> = CsMat::new((n, n), indptr, indices, data);
+    let view = mat.view();
+    let nzu = |x: usize| std::num::NonZeroUsize::new(x).unwrap();
+    let r = match t {
+        Topo::View => fm.partition(ids, (view, w)),
+        Topo::RefView => fm.partition(ids, (&view, w)),
+        Topo::RefRefView => {
+            let r1 = &view;
+            fm.partition(ids, (&r1, w))
+        }
+        Topo::Grid(a, b) => fm.partition(ids, (coupe::Grid::new_2d(nzu(a), nzu(b)), w)),
+        Topo::RefGrid(a, b) => {
+            let g = coupe::Grid::new_2d(nzu(a), nzu(b));
+            fm.partition(ids, (&g, w))
+        }
+        Topo::Tools(..) => return Err("bad-variant".into()),
+    };
+    match r {
+        Ok(md) => Ok((md.moves_per_pass.clone(), md.rewinded_moves_per_pass.clone())),
+        Err(coupe::Error::InputLenMismatch { .. }) => Err("lenmismatch".into()),
+        Err(coupe::Error::BiPartitioningOnly) => Err("bionly".into()),
+        Err(e) => Err(format!("err {:?}", e)),
+    }
+}
+
+fn conv<W: coupe::num_traits::FromPrimitive>(ws: &[i64]) -> Option<Vec<W>> {
+    ws.iter().map(|&k| W::from_i64(k)).collect()
+}
+
+fn parse_debug_list(s: &str, key: &str) -> Option<Vec<usize>> {
+    let i = s.find(key)? + key.len();
+    let rest = &s[i..];
+    let j = rest.find(']')?;
+    let inner = rest[..j].trim_start_matches(|ch: char| ch == ':' || ch == ' ' || ch == '[');
+    if inner.trim().is_empty() {
+        return Some(vec![]);
+    }
+    inner.split(',').map(|t| t.trim().parse().ok()).collect()
+}
+
+fn call_tools(c: &Case, v: &Variant, a: usize, b: usize, ids: &mut [usize]) -> CallOut {
+    if tools_rows(a, b) != c.rows {
+        return Err("bad-variant".into());
+    }
+    let Some(mi) = c.mi else { return Err("bad-variant".into()) };
+    let spec = format!("fm,{},{},{},{}", mi, c.mb, c.mp.unwrap_or(0), c.mm.unwrap_or(0));
+    let weights = match v.w {
+        WTy::I64 => mesh_io::weight::Array::Integers(c.ws.iter().map(|&k| vec![k]).collect()),
+        WTy::F64 => mesh_io::weight::Array::Floats(c.ws.iter().map(|&k| vec![k as f64]).collect()),
+        _ => return Err("bad-variant".into()),
+    };
+    let problem = coupe_tools::Problem::<2>::new(quad_mesh(a, b), weights, coupe_tools::EdgeWeightDistribution::Uniform);
+    let mut algo = coupe_tools::parse_algorithm::<2>(&spec).map_err(|e| format!("err tools: {}", e))?;
+    let mut runner = algo.to_runner(&problem);
+    match runner(ids) {
+        Ok(Some(md)) => {
+            let s = format!("{:?}", md);
+            let moves = parse_debug_list(&s, "moves_per_pass").ok_or("err tools: metadata")?;
+            let rew = parse_debug_list(&s, "rewinded_moves_per_pass").ok_or("err tools: metadata")?;
+            Ok((moves, rew))
+        }
+        Ok(None) => Err("err tools: no metadata".into()),
+        Err(e) => Err(format!("err tools: {}", e)),
+    }
+}
+
+/// One call of the implementation in the variant's types (no context, no panic capture).
+fn call_variant(c: &Case, v: &Variant) -> (CallOut, Vec<usize>) {
+    let mut fm = coupe::FiducciaMattheyses {
+        max_imbalance: c.mi,
+        max_bad_move_in_a_row: c.mb,
+        max_passes: c.mp,
+        max_moves_per_pass: c.mm,
+    };
+    let mut ids = c.ids.clone();
+    if let Topo::Tools(a, b) = v.t {
+        let r = call_tools(c, v, a, b, &mut ids);
+        return (r, ids);
+    }
+    macro_rules! int {
+        ($t:ty) => {
+            match conv::<$t>(&c.ws) {
+                Some(w) => call_w::<$t>(&mut fm, c, v.t, &w, &mut ids),
+                None => Err("bad-variant".into()),
+            }
+        };
+    }
+    let r = match v.w {
+        WTy::I64 => int!(i64),
+        WTy::I32 => int!(i32),
+        WTy::U32 => int!(u32),
+        WTy::U64 => int!(u64),
+        WTy::Usize => int!(usize),
+        WTy::I128 => int!(i128),
+        WTy::U8 => int!(u8),
+        WTy::I16 => int!(i16),
+        WTy::F64 => {
+            let s = pow2(v.sc.unwrap_or(0));
+            let w: Vec<f64> = c
+                .ws
+                .iter()
+                .enumerate()
+                .map(|(i, &k)| if k == 0 && v.nz >> (i % 64) & 1 == 1 { -0.0 } else { k as f64 * s })
+                .collect();
+            call_w::<f64>(&mut fm, c, v.t, &w, &mut ids)
+        }
+        WTy::F32 => {
+            let w: Vec<f32> = c
+                .ws
+                .iter()
+                .enumerate()
+                .map(|(i, &k)| if k == 0 && v.nz >> (i % 64) & 1 == 1 { -0.0 } else { k as f32 })
+                .collect();
+            call_w::<f32>(&mut fm, c, v.t, &w, &mut ids)
+        }
+    };
+    (r, ids)
+}
+
+fn to_ran(r: (CallOut, Vec<usize>)) -> Ran {
+    match r {
+        (Ok((moves, rewound)), ids) => Ran::Ok { ids, moves, rewound },
+        (Err(e), _) => Ran::Err(e),
+    }
+}
+
+fn exec_variant(c: &Case, v: &Variant) -> Ran {
+    let (c, v) = (c.clone(), *v);
+    let job = move || call_variant(&c, &v);
+    let wrapped = move || match v.c {
+        CallCtx::Global => job(),
+        CallCtx::Pool(t) => with_pool(t, job),
+        CallCtx::Join(t) => with_pool(t, || coupe::rayon::join(job, || ()).0),
+        CallCtx::Spawn(t) => with_pool(t, || {
+            let mut out = None;
+            coupe::rayon::scope(|s| s.spawn(|_| out = Some(job())));
+            out.expect("spawned task ran")
+        }),
+    };
+    match catch_timeout(60, wrapped) {
+        Caught::Ok(r) => to_ran(r),
+        Caught::Panic(m) => Ran::Panic(m.split_whitespace().collect::<Vec<_>>().join(" ")),
+        Caught::Hang => Ran::Hang,
+    }
+}
+
+fn canon(c: &Case, r: &Ran) -> String {
+    match r {
+        Ran::Ok { ids, moves, rewound } => {
+            if c.ids.is_empty() {
+                "ok-empty".to_string()
+            } else {
+                format!("ok {} | {} | {} | {}", cap_threshold(c).unwrap_or(0), list(ids), list(moves), list(rewound))
+            }
+        }
+        Ran::Err(e) => e.clone(),
+        Ran::Panic(m) => format!("panic {}", m),
+        Ran::Hang => "hang".to_string(),
+    }
+}
+
+/// Full oracle + (where the model's rules leave no choice) exact equality with the reference run.
+fn judge(c: &Case, r: &Ran, sig: &str) -> Option<(String, String)> {
+    match r {
+        Ran::Ok { ids, moves, rewound } => {
+            if let Some((s, w)) = oracle(c, ids, moves, rewound) {
+                return Some((s.to_string(), w));
+            }
+            if let Some((i2, m2, r2)) = reference(c) {
+                if &i2 != ids || &m2 != moves || &r2 != rewound {
+                    return Some((
+                        sig.to_string(),
+                        format!(
+                            "got {} | {} | {}, the plain call gives (tie-free reference) {} | {} | {}",
+                            list(ids), list(moves), list(rewound), list(&i2), list(&m2), list(&r2)
+                        ),
+                    ));
+                }
+            }
+            None
+        }
+        Ran::Err(e) => Some(("fm-unexpected-error".into(), e.clone())),
+        Ran::Panic(m) => Some(("panic".into(), format!("{} [{}]", m, panic_sig(m)))),
+        Ran::Hang => Some(("hang".into(), "watchdog".into())),
+    }
+}
+
+fn run_variant(ctx: &mut Ctx, c: &Case, v: &Variant) {
+    let mut c = c.clone();
+    c.f64w = v.is_float();
+    if validity(&c) != Validity::Valid {
+        ctx.record(format!("fmv {} {}", v.token(), format_op(&c)), "bad-op".into(), false);
+        return;
+    }
+    let ran = exec_variant(&c, v);
+    let out = canon(&c, &ran);
+    let verdict = judge(&c, &ran, v.sig());
+    ctx.count(&format!("plumbing:weights:{:?}", v.w).to_lowercase());
+    ctx.count(&format!(
+        "plumbing:topology:{}",
+        match v.t {
+            Topo::View => "view",
+            Topo::RefView => "&view",
+            Topo::RefRefView => "&&view",
+            Topo::Grid(..) => "grid",
+            Topo::RefGrid(..) => "&grid",
+            Topo::Tools(..) => "tools-entry-point",
+        }
+    ));
+    ctx.count(&format!(
+        "context:{}",
+        match v.c {
+            CallCtx::Global => "global-pool",
+            CallCtx::Pool(_) => "pool.install",
+            CallCtx::Join(_) => "inside-rayon-join",
+            CallCtx::Spawn(_) => "inside-rayon-scope-spawn",
+        }
+    ));
+    let nt = c.ids.len() >= 2 && matches!(&ran, Ran::Ok { moves, .. } if moves.iter().sum::<usize>() > 0);
+    let idx = ctx.record(format!("fmv {} {} => {}", v.token(), format_op(&c), out), out, nt);
+    if let Some((sig, what)) = verdict {
+        ctx.fail(idx, &sig, format!("[{}] {}", v.token(), what));
+    }
+}
+
+fn run_variant_replay(ctx: &mut Ctx, op: &str) {
+    let mut it = op.splitn(3, ' ');
+    let (_, tok, rest) = (it.next(), it.next().unwrap_or(""), it.next().unwrap_or(""));
+    match (Variant::parse(tok), parse_op(rest)) {
+        (Some(v), Some(c)) => run_variant(ctx, &c, &v),
+        _ => {
+            ctx.record(op.to_string(), "bad-op".into(), false);
+        }
+    }
+}
+
+/// Small valid case whose weights fit the variant's weight type and whose cap is exactly representable in it.
+fn fit_case(ctx: &mut Ctx, c: &mut Case, w: WTy) {
+    let n = c.ids.len();
+    let dyadic = [None, Some(0.25), Some(0.5), Some(1.0), Some(3.0), Some(0.125)];
+    match w {
+        WTy::U8 => {
+            for x in c.ws.iter_mut() {
+                *x = 1 + *x % 15;
+            }
+            c.mi = *ctx.rng.pick(&[None, Some(0.25), Some(0.125), Some(0.0)]);
+        }
+        WTy::I16 => {
+            for x in c.ws.iter_mut() {
+                *x = 1 + *x % 1000;
+            }
+        }
+        WTy::F32 => {
+            // integers whose sums stay below 2^24, cap with few fractional bits: exact in f32
+            for x in c.ws.iter_mut() {
+                *x = 1 + *x % 4000;
+            }
+            c.mi = *ctx.rng.pick(&dyadic);
+        }
+        WTy::I32 | WTy::U32 => {
+            for x in c.ws.iter_mut() {
+                *x = 1 + *x % 10_000_000;
+            }
+        }
+        _ => {}
+    }
+    if matches!(w, WTy::U8 | WTy::U32 | WTy::U64 | WTy::Usize) {
+        // the cap must be convertible to an unsigned type
+        if let Some(mi) = c.mi {
+            if mi < -1.0 {
+                c.mi = Some(0.0);
+            }
+        }
+    }
+    let _ = n;
+}
+
+fn gen_special(ctx: &mut Ctx) {
+    let wtys = [WTy::I64, WTy::F64, WTy::I32, WTy::U32, WTy::U64, WTy::Usize, WTy::F32, WTy::I128, WTy::U8, WTy::I16];
+    let views = [Topo::View, Topo::RefView, Topo::RefRefView];
+    // (a) every admitted weight type x view / &view / &&view
+    for k in 0..ctx.budget(80, 800) {
+        let mut c = gen_case(ctx, 12, k % 5 != 4);
+        let w = wtys[k % wtys.len()];
+        fit_case(ctx, &mut c, w);
+        let t = *ctx.rng.pick(&views);
+        ctx.count("special-stream:plumbing");
+        run_variant(ctx, &c, &Variant { w, t, c: CallCtx::Global, nz: 0, sc: None });
+    }
+    // (b) Grid<2> as the topology (unit edge weights), against the same graph as a matrix view
+    for k in 0..ctx.budget(24, 240) {
+        let (a, b) = (1 + ctx.rng.usize(5), 1 + ctx.rng.usize(5));
+        let mut c = gen_case(ctx, 4, k % 4 != 3);
+        let n = a * b;
+        c.rows = grid_rows(a, b);
+        let (ws, _) = gen_weights(ctx, n, k % 4 != 3);
+        c.ws = ws;
+        c.ids = gen_ids(ctx, n).0;
+        let w = *ctx.rng.pick(&[WTy::I64, WTy::F64, WTy::U32]);
+        fit_case(ctx, &mut c, w);
+        ctx.count("special-stream:grid-topology");
+        for t in [Topo::Grid(a, b), Topo::RefGrid(a, b), Topo::View] {
+            run_variant(ctx, &c, &Variant { w, t, c: CallCtx::Global, nz: 0, sc: None });
+        }
+    }
+    // (c) the tools entry point `parse_algorithm("fm,…")` on a quad mesh
+    for _ in 0..ctx.budget(12, 120) {
+        let (a, b) = (1 + ctx.rng.usize(5), 1 + ctx.rng.usize(5));
+        let mut c = gen_case(ctx, 4, true);
+        let n = a * b;
+        c.rows = tools_rows(a, b);
+        c.ws = gen_weights(ctx, n, true).0;
+        c.ids = gen_ids(ctx, n).0;
+        c.mi = Some(*ctx.rng.pick(&[0.0, 0.05, 0.1, 0.25, 0.5, 1.0, 3.0]));
+        c.mb = ctx.rng.usize(4);
+        // the tool maps 0 to "no limit"
+        c.mp = if ctx.rng.chance(1, 2) { None } else { Some(1 + ctx.rng.usize(3)) };
+        c.mm = if ctx.rng.chance(1, 2) { None } else { Some(1 + ctx.rng.usize(n)) };
+        let w = *ctx.rng.pick(&[WTy::I64, WTy::F64]);
+        ctx.count("special-stream:tools-entry-point");
+        run_variant(ctx, &c, &Variant { w, t: Topo::Tools(a, b), c: CallCtx::Global, nz: 0, sc: None });
+    }
+    // (d) -0.0 vertex weights (f64, f32): an odd and an even number of them, also all weights zero
+    for k in 0..ctx.budget(48, 480) {
+        let mut c = gen_case(ctx, 10, true);
+        let n = c.ids.len();
+        let zeros = if k % 8 == 7 { n } else { 1 + ctx.rng.usize(4.min(n)) };
+        let mut idx: Vec<usize> = (0..n).collect();
+        ctx.rng.shuffle(&mut idx);
+        let mut nz = 0u64;
+        let mut neg = 0;
+        for (j, &i) in idx.iter().take(zeros).enumerate() {
+            c.ws[i] = 0;
+            // every zero, or all but one: both parities occur
+            if j > 0 || k % 2 == 0 {
+                nz |= 1 << (i % 64);
+                neg += 1;
+            }
+        }
+        let w = if k % 6 == 5 { WTy::F32 } else { WTy::F64 };
+        fit_case(ctx, &mut c, w);
+        for &i in idx.iter().take(zeros) {
+            c.ws[i] = 0;
+        }
+        ctx.count(if neg % 2 == 1 { "special:negzero-odd-count" } else { "special:negzero-even-count" });
+        if zeros == n {
+            ctx.count("special:negzero-all-weights-zero");
+        }
+        run_variant(ctx, &c, &Variant { w, t: Topo::View, c: CallCtx::Global, nz, sc: None });
+    }
+    // (e) explicit zero edge weights (stored entries)
+    for _ in 0..ctx.budget(24, 240) {
+        let mut c = gen_case(ctx, 10, true);
+        let n = c.ids.len();
+        for v in 0..n {
+            for k in 0..c.rows[v].len() {
+                let u = c.rows[v][k].0;
+                if u < v && ctx.rng.chance(1, 3) {
+                    c.rows[v][k].1 = 0;
+                    if let Some(e) = c.rows[u].iter_mut().find(|e| e.0 == v) {
+                        e.1 = 0;
+                    }
+                }
+            }
+        }
+        ctx.count("special:zero-edge-weight");
+        let f = c.f64w;
+        run_variant(ctx, &c, &Variant::plain(f));
+    }
+    // (f) f64 weights k * 2^e: subnormal, straddling the smallest normal, near overflow; the result must be the
+    //     one of the integer weights k (exact scale invariance; max_imbalance None or dyadic so that the cap is exact)
+    for k in 0..ctx.budget(60, 600) {
+        let mut c = gen_case(ctx, 8, k % 3 != 2);
+        let n = c.ids.len();
+        c.mi = *ctx.rng.pick(&[None, None, Some(0.25), Some(0.5), Some(1.0), Some(3.0), Some(0.125)]);
+        let (e, class) = match k % 6 {
+            0 => (-1070, "special:f64-subnormal"),
+            1 => (-1060, "special:f64-subnormal"),
+            2 => (-1030, "special:f64-straddling-smallest-normal"),
+            3 => (1018, "special:f64-total-near-overflow"),
+            4 => (1017, "special:f64-total-near-overflow"),
+            _ => (-1022, "special:f64-smallest-normal-multiples"),
+        };
+        let mut budget = if e >= 1017 { if e == 1018 { 63i64 } else { 127 } } else { i64::MAX };
+        for x in c.ws.iter_mut() {
+            let hi = match e {
+                -1030 => 1000,
+                1018 | 1017 => (budget / n as i64).max(1).min(24),
+                _ => 50,
+            };
+            *x = if k % 3 == 2 { 1 + *x % 3.min(hi) } else { 1 + *x % hi };
+            if e >= 1017 {
+                *x = (*x).min(budget.max(0));
+                budget -= *x;
+            }
+        }
+        ctx.count(class);
+        run_variant(ctx, &c, &Variant { w: WTy::F64, t: Topo::View, c: CallCtx::Global, nz: 0, sc: Some(e) });
+    }
+    {
+        // 64 weights of 2^-1030 (about 8.7e-311) on a path, and three weights of 2^1022 (total 1.35e308)
+        let edges: Edges = (1..64).map(|u| (u, u - 1, 1)).collect();
+        for mi in [None, Some(0.25)] {
+            let c = Case { f64w: true, mi, mb: 2, mp: None, mm: None, rows: rows_of(64, &edges), ids: (0..64).map(|i| (i / 3) % 2).collect(), ws: vec![1; 64] };
+            ctx.count("special:f64-subnormal");
+            run_variant(ctx, &c, &Variant { w: WTy::F64, t: Topo::View, c: CallCtx::Global, nz: 0, sc: Some(-1030) });
+            let c = Case { f64w: true, mi, mb: 2, mp: None, mm: None, rows: rows_of(3, &vec![(1, 0, 2), (2, 1, 1)]), ids: vec![0, 1, 0], ws: vec![1, 1, 1] };
+            ctx.count("special:f64-total-near-overflow");
+            run_variant(ctx, &c, &Variant { w: WTy::F64, t: Topo::View, c: CallCtx::Global, nz: 0, sc: Some(1022) });
+        }
+    }
+    // (g) calling contexts: pool.install, from inside a rayon task (join / scope.spawn)
+    for k in 0..ctx.budget(36, 360) {
+        let mut c = gen_case(ctx, 12, k % 6 != 5);
+        let t = *ctx.rng.pick(&[1usize, 2, 3, 4, 16]);
+        let cc = match k % 3 {
+            0 => CallCtx::Pool(t),
+            1 => CallCtx::Join(t),
+            _ => CallCtx::Spawn(t),
+        };
+        let w = *ctx.rng.pick(&[WTy::I64, WTy::F64, WTy::U64]);
+        fit_case(ctx, &mut c, w);
+        ctx.count("special-stream:context");
+        let t = *ctx.rng.pick(&views);
+        run_variant(ctx, &c, &Variant { w, t, c: cc, nz: 0, sc: None });
+    }
+    // (h) many calls at once on one pool
+    for k in 0..ctx.budget(4, 24) {
+        let pool = if k % 2 == 0 { 4 } else { 16 };
+        let calls = [8usize, 16, 32, 24][k % 4];
+        let nested = (k / 2) % 2;
+        let seed = ctx.rng.next() % 1_000_000;
+        run_op(ctx, &format!("fmconc {} {} {} {}", pool, calls, nested, seed));
+    }
+    // (i) first-call sequences in a fresh process (static / thread-local state initialised by the first call)
+    for kind in 0..4 {
+        let seed = ctx.rng.next() % 1_000_000;
+        run_op(ctx, &format!("fmproc {} {}", kind, seed));
+    }
+    ctx.notes.push(
+        "special stream: every case is a valid small FM input run through another admitted input type (10 weight types, \
+         view/&view/&&view/Grid/&Grid, the tools entry point), special values (-0.0 weights, stored zero edge weights, f64 \
+         weights k*2^e subnormal / around 2^-1022 / total near f64::MAX) or calling context (pool.install, inside join / \
+         scope.spawn, 8-32 concurrent calls on pools of 4 and 16, first-call sequences in a child process); judged by the \
+         full oracle, by exact equality with the tie-free reference run of the plain integer case, and by the Lean model \
+         through the driver (the model predicts the plain case)."
+            .into(),
+    );
+}
+
+fn conc_inputs(ctx: &mut Ctx, calls: usize, seed: u64) -> Vec<(Case, Variant)> {
+    let saved = std::mem::replace(&mut ctx.rng, Rng::new(seed ^ 0xC07C_07C0));
+    let mut v = vec![];
+    for k in 0..calls {
+        let mut c = gen_case(ctx, 14, k % 6 != 5);
+        let w = [WTy::I64, WTy::F64, WTy::I32, WTy::U64][k % 4];
+        fit_case(ctx, &mut c, w);
+        c.f64w = w == WTy::F64;
+        let t = [Topo::View, Topo::RefView][k / 4 % 2];
+        v.push((c, Variant { w, t, c: CallCtx::Global, nz: 0, sc: None }));
+    }
+    ctx.rng = saved;
+    v
+}
+
+fn run_concurrent(ctx: &mut Ctx, op: &str) {
+    let t: Vec<&str> = op.split("=>").next().unwrap_or("").split_whitespace().collect();
+    let parsed = (|| {
+        if t.len() != 5 {
+            return None;
+        }
+        let pool: usize = t[1].parse().ok().filter(|p| (1..=64).contains(p))?;
+        let calls: usize = t[2].parse().ok().filter(|c| (1..=256).contains(c))?;
+        let nested: usize = t[3].parse().ok()?;
+        let seed: u64 = t[4].parse().ok()?;
+        Some((pool, calls, nested, seed))
+    })();
+    let Some((pool, calls, nested, seed)) = parsed else {
+        ctx.record(op.to_string(), "bad-op".into(), false);
+        return;
+    };
+    use coupe::rayon::iter::{IntoParallelRefIterator, ParallelIterator};
+    let inputs = conc_inputs(ctx, calls, seed);
+    let shared = inputs.clone();
+    let res = catch_timeout(120, move || {
+        with_pool(pool, move || {
+            let go = || shared.par_iter().map(|(c, v)| call_variant(c, v)).collect::<Vec<_>>();
+            if nested == 1 {
+                // the batch itself is started from inside a task of the pool
+                let mut out = None;
+                coupe::rayon::scope(|s| s.spawn(|_| out = Some(go())));
+                out.expect("spawned task ran")
+            } else {
+                go()
+            }
+        })
+    });
+    ctx.count(&format!("context:concurrent-calls-pool{}", pool));
+    ctx.count("context:concurrent-batches");
+    let base = format!("fmconc {} {} {} {}", pool, calls, nested, seed);
+    let (out, verdict) = match res {
+        Caught::Ok(results) => {
+            let mut verdict = None;
+            for ((c, v), r) in inputs.iter().zip(results) {
+                let ran = to_ran(r);
+                let line = canon(c, &ran);
+                ctx.count("context:concurrent-calls");
+                // each call is also its own line for the model driver
+                ctx.record(format!("fmv {} {} => {}", v.token(), format_op(c), line), line, false);
+                if verdict.is_none() {
+                    verdict = judge(c, &ran, "context-dependent@fm")
+                        .map(|(s, w)| (s, format!("one of {} concurrent calls on a pool of {}: {} (fmv {} {})", calls, pool, w, v.token(), format_op(c))));
+                }
+            }
+            (format!("ok {} calls", calls), verdict)
+        }
+        Caught::Panic(m) => {
+            let m = m.split_whitespace().collect::<Vec<_>>().join(" ");
+            (format!("panic {}", m), Some(("panic".to_string(), format!("{} concurrent calls on a pool of {}: {}", calls, pool, m))))
+        }
+        Caught::Hang => ("hang".into(), Some(("hang".to_string(), format!("{} concurrent calls on a pool of {}", calls, pool)))),
+    };
+    let idx = ctx.record(format!("{} => {}", base, out), out, true);
+    if let Some((sig, what)) = verdict {
+        ctx.fail(idx, &sig, what);
+    }
+}
+
+fn run_process_sequence(ctx: &mut Ctx, op: &str) {
+    let t: Vec<&str> = op.split("=>").next().unwrap_or("").split_whitespace().collect();
+    let parsed = (|| {
+        if t.len() != 3 {
+            return None;
+        }
+        Some((t[1].parse::<usize>().ok().filter(|k| *k < 4)?, t[2].parse::<u64>().ok()?))
+    })();
+    let Some((kind, seed)) = parsed else {
+        ctx.record(op.to_string(), "bad-op".into(), false);
+        return;
+    };
+    // the first call of the child process uses the instantiation named by `kind`; the usual ones follow
+    let saved = std::mem::replace(&mut ctx.rng, Rng::new(seed ^ 0x5EC0_07));
+    let mut lines = vec![];
+    let first = match kind {
+        0 => Variant { w: WTy::U32, t: Topo::Grid(3, 4), c: CallCtx::Global, nz: 0, sc: None },
+        1 => Variant { w: WTy::F32, t: Topo::RefView, c: CallCtx::Spawn(3), nz: 0, sc: None },
+        2 => Variant { w: WTy::U64, t: Topo::RefRefView, c: CallCtx::Pool(2), nz: 0, sc: None },
+        _ => Variant { w: WTy::F64, t: Topo::Tools(3, 3), c: CallCtx::Global, nz: 0, sc: None },
+    };
+    for k in 0..6 {
+        let mut c = gen_case(ctx, 12, true);
+        let v = if k == 0 { first } else { Variant::plain(k % 2 == 0) };
+        match v.t {
+            Topo::Grid(a, b) => {
+                c.rows = grid_rows(a, b);
+                c.ws = gen_weights(ctx, a * b, true).0;
+                c.ids = gen_ids(ctx, a * b).0;
+            }
+            Topo::Tools(a, b) => {
+                c.rows = tools_rows(a, b);
+                c.ws = gen_weights(ctx, a * b, true).0;
+                c.ids = gen_ids(ctx, a * b).0;
+                c.mi = Some(0.25);
+                c.mp = None;
+                c.mm = None;
+            }
+            _ => {}
+        }
+        fit_case(ctx, &mut c, v.w);
+        c.f64w = v.is_float();
+        lines.push(format!("C07 fmv {} {}", v.token(), format_op(&c)));
+    }
+    ctx.rng = saved;
+    ctx.count("context:first-call-sequence-in-child-process");
+    let dir = std::env::temp_dir().join(format!("c07-child-{}-{}-{}", std::process::id(), kind, seed));
+    let _ = std::fs::create_dir_all(&dir);
+    let ops = dir.join("ops.txt");
+    let (out, verdict): (String, Option<(String, String)>) = (|| {
+        if std::fs::write(&ops, lines.join("\n") + "\n").is_err() {
+            return ("skipped cannot-write".to_string(), None);
+        }
+        let exe = match std::env::current_exe() {
+            Ok(e) => e,
+            Err(_) => return ("skipped no-exe".to_string(), None),
+        };
+        let st = std::process::Command::new(exe)
+            .args(["replay", "C07", "--ops"])
+            .arg(&ops)
+            .arg("--out")
+            .arg(&dir)
+            .stdout(std::process::Stdio::null())
+            .stderr(std::process::Stdio::null())
+            .status();
+        match st {
+            Ok(s) if s.success() => {
+                let fails = std::fs::read_to_string(dir.join("oracle.jsonl")).unwrap_or_default();
+                let n = std::fs::read_to_string(dir.join("impl.txt")).map(|t| t.lines().count()).unwrap_or(0);
+                if let Some(l) = fails.lines().next() {
+                    (format!("failed {} cases", n), Some(("process-state-dependent@fm".to_string(), format!("in a fresh process, first call {}: {}", first.token(), l))))
+                } else if n < lines.len() {
+                    (format!("failed {} cases", n), Some(("process-state-dependent@fm".to_string(), format!("child recorded {} of {} cases", n, lines.len()))))
+                } else {
+                    (format!("ok {} cases", n), None)
+                }
+            }
+            Ok(s) => (format!("failed child status {:?}", s.code()), Some(("process-state-dependent@fm".to_string(), format!("child process exited with {:?}", s.code())))),
+            Err(_) => ("skipped cannot-spawn".to_string(), None),
+        }
+    })();
+    let _ = std::fs::remove_dir_all(&dir);
+    let idx = ctx.record(format!("fmproc {} {} => {}", kind, seed, out), out, true);
+    if let Some((sig, what)) = verdict {
+        ctx.fail(idx, &sig, what);
     }
 }
 
@@ -1403,6 +2253,7 @@ pub fn generate(ctx: &mut Ctx) {
     }
     // (6) corners (tiny sizes, limits, weights near the type's range, object reuse) and (7) large sizes
     gen_corners(ctx);
+    gen_special(ctx);
     gen_large(ctx);
     // (5) the empty input
     let c = Case { f64w: false, mi: None, mb: 0, mp: None, mm: None, rows: vec![], ids: vec![], ws: vec![] };
